@@ -341,7 +341,33 @@ impl ProcfsHandle {
         oflags: F,
     ) -> Result<File, Error> {
         let subpath = subpath.as_ref();
-        let mut oflags = oflags.into();
+        let oflags = oflags.into();
+
+        self.open_follow_inner(base, subpath, oflags).or_else(|err| {
+            if self.is_subset && err.kind() == ErrorKind::OsError(Some(libc::ENOENT)) {
+                // As in open(): on a "masked" handle ENOENT can be an
+                // artefact of the masking. open() alone cannot hide that here,
+                // because the parent directory of the link is resolved on the
+                // masked instance (where it exists) and the link is then
+                // looked up in it -- e.g. /proc/mounts or /proc/net on a
+                // subset=pid instance. Retry the whole operation once on an
+                // unmasked handle.
+                Self::new_unmasked()
+                    // Use the old error if creating a new handle failed.
+                    .or(Err(err))?
+                    .open_follow_inner(base, subpath, oflags)
+            } else {
+                Err(err)
+            }
+        })
+    }
+
+    fn open_follow_inner(
+        &self,
+        base: ProcfsBase,
+        subpath: &Path,
+        mut oflags: OpenFlags,
+    ) -> Result<File, Error> {
 
         // ProcfsHandle::open() refuses these flags in the resolver, but the
         // final open of a magic-link below does not go through it. They make
